@@ -1,7 +1,7 @@
 (** Concrete evaluations of the model of discrete.py over exact rationals
     (non-vacuity examples and witnesses). *)
 From Coq Require Import List QArith Bool.
-From TsdateV Require Import lib.Num model.Discrete proofs.DiscreteBase.
+From TsdateV Require Import lib.Num model.Discrete proofs.DiscreteBase proofs.DiscreteInside.
 Import ListNotations.
 
 (** the linear space over Q; [x ** f] is only ever needed for f = 1 (single trees) *)
@@ -62,3 +62,73 @@ Lemma C10_example :
   ex10_run = Some (ex10_Z, Some (map ex10_m3 (seq 0 3)), Some (map ex10_m4 (seq 0 3))) /\
   Qlt 0 ex10_Z.
 Proof. split; [reflexivity|]. split; [reflexivity|]. split; vm_compute; reflexivity. Qed.
+
+(** *** C11: a balanced 4-leaf tree; the two cherries can be visited in either order *)
+Definition ex11_fixed (u : nat) : bool := Nat.ltb u 4.
+Definition ex11_prior (u : nat) : list Q :=
+  if Nat.eqb u 4 then [0; 1 # 2; 1 # 3]%Q else if Nat.eqb u 5 then [0; 1 # 4; 1 # 5]%Q
+  else if Nat.eqb u 6 then [0; 1 # 6; 1 # 7]%Q else [].
+Definition ex11_g4 : nat * list edge := (4, [(0, 4, 0); (1, 4, 1)])%nat.
+Definition ex11_g5 : nat * list edge := (5, [(2, 5, 2); (3, 5, 3)])%nat.
+Definition ex11_g6 : nat * list edge := (6, [(4, 6, 4); (5, 6, 5)])%nat.
+Definition ex11_run (gs : list (nat * list edge)) :=
+  option_map (fun st => (dump 7 (i_ins LinQ st), i_marg LinQ st))
+    (inside_groups LinQ 3 ex10_lik (fun _ => 1%Q) ex11_fixed ex11_prior true (istate0 LinQ) gs).
+
+Lemma C11_example :
+  inside_order ex11_fixed [] [ex11_g4; ex11_g5; ex11_g6] /\
+  inside_order ex11_fixed [] [ex11_g5; ex11_g4; ex11_g6] /\
+  ex11_run [ex11_g4; ex11_g5; ex11_g6] = ex11_run [ex11_g5; ex11_g4; ex11_g6] /\
+  ex11_run [ex11_g4; ex11_g5; ex11_g6] <> None.
+Proof. split; [apply inside_orderb_spec; reflexivity|]. split; [apply inside_orderb_spec; reflexivity|].
+  split; [vm_compute; reflexivity|vm_compute; discriminate]. Qed.
+
+(** *** C38: a 4-leaf caterpillar 4 = (0,1), M = (4,2), R = (M,3).  Numbering A gives the
+    root R the highest id (M = 5, R = 6); numbering B swaps the two (M = 6, R = 5), so the
+    highest id belongs to the middle node, which is not a root. *)
+Definition ex38_fixed (u : nat) : bool := Nat.ltb u 4.
+Definition ex38_pr4 : list Q := [0; 1 # 2; 1 # 3]%Q.
+Definition ex38_prM : list Q := [0; 1 # 4; 1 # 5]%Q.
+Definition ex38_prR : list Q := [0; 1 # 6; 1 # 7]%Q.
+Definition ex38_priorA (u : nat) : list Q :=
+  if Nat.eqb u 4 then ex38_pr4 else if Nat.eqb u 5 then ex38_prM else if Nat.eqb u 6 then ex38_prR else [].
+Definition ex38_priorB (u : nat) : list Q :=
+  if Nat.eqb u 4 then ex38_pr4 else if Nat.eqb u 6 then ex38_prM else if Nat.eqb u 5 then ex38_prR else [].
+(** edge ids are the same in both numberings (edges sorted by parent time) *)
+Definition ex38_esA : list edge := [(0, 4, 0); (1, 4, 1); (2, 5, 2); (3, 5, 4); (4, 6, 3); (5, 6, 5)]%nat.
+Definition ex38_esB : list edge := [(0, 4, 0); (1, 4, 1); (2, 6, 2); (3, 6, 4); (4, 5, 3); (5, 5, 6)]%nat.
+Definition ex38_outA : list edge := [(5, 6, 5); (3, 5, 4); (4, 6, 3); (2, 5, 2); (1, 4, 1); (0, 4, 0)]%nat.
+Definition ex38_outB : list edge := [(5, 5, 6); (3, 6, 4); (4, 5, 3); (2, 6, 2); (1, 4, 1); (0, 4, 0)]%nat.
+
+(** normalised posterior of node [u] with ignore_oldest_root = [ign] *)
+Definition ex38_post (prior : nat -> list Q) (es es_out : list edge) (root : nat) (ign : bool) (u : nat)
+  : option (list Q) :=
+  match inside_pass LinQ 3 ex10_lik (fun _ => 1%Q) ex38_fixed prior true es [(root, 1%Q)] with
+  | None => None
+  | Some (st, _) =>
+      match outside_pass LinQ 3 ex10_lik (fun _ => 1%Q) ex38_fixed st false false ign 7 0%Q
+              es_out [(root, 1%Q)] [4; 5; 6]%nat with
+      | None => None
+      | Some out => option_map (fun v => map (fun x => Qred (x / sumQ v)) v) (posterior_grid LinQ st out u)
+      end
+  end.
+
+Lemma C38_witness :
+  (* both numberings are valid inputs in the order the code visits them *)
+  inside_orderb ex38_fixed [] (groupby e_parent ex38_esA) = true /\
+  inside_orderb ex38_fixed [] (groupby e_parent ex38_esB) = true /\
+  outside_orderb (map fst (groupby e_child ex38_outA)) [] (groupby e_child ex38_outA) = true /\
+  outside_orderb (map fst (groupby e_child ex38_outB)) [] (groupby e_child ex38_outB) = true /\
+  (* without the option the renumbering changes nothing (node 4 keeps its id) *)
+  ex38_post ex38_priorA ex38_esA ex38_outA 6 false 4 = ex38_post ex38_priorB ex38_esB ex38_outB 5 false 4 /\
+  ex38_post ex38_priorA ex38_esA ex38_outA 6 false 4 <> None /\
+  (* with ignore_oldest_root the posterior of node 4 depends on the numbering *)
+  ex38_post ex38_priorA ex38_esA ex38_outA 6 true 4 <> ex38_post ex38_priorB ex38_esB ex38_outB 5 true 4 /\
+  (* in numbering B the option changes nothing for the child of the root (the middle node 6): the
+     message from the oldest root 5 is NOT ignored *)
+  ex38_post ex38_priorB ex38_esB ex38_outB 5 true 6 = ex38_post ex38_priorB ex38_esB ex38_outB 5 false 6.
+Proof. repeat split; try reflexivity; vm_compute; try reflexivity; discriminate. Qed.
+
+Lemma C38_option_matters :
+  ex38_post ex38_priorA ex38_esA ex38_outA 6 true 5 <> ex38_post ex38_priorA ex38_esA ex38_outA 6 false 5.
+Proof. vm_compute. discriminate. Qed.
